@@ -183,6 +183,13 @@ func (c *Ctx) UF(name string, ret string, args ...Term) Term {
 			as = append(as, a.Sort)
 		}
 		c.decls = append(c.decls, fmt.Sprintf("(declare-fun %s (%s) %s)", name, strings.Join(as, " "), ret))
+		if name == "uf.str.concat" {
+			// concatenation is cancellative: x+y == x+z implies y == z (and symmetrically)
+			c.assumes = append(c.assumes, Assume{declPos: len(c.decls), why: "string concatenation is left- and right-cancellative",
+				t: raw("(forall ((a Str) (b Str) (d Str)) (! (=> (= (uf.str.concat a b) (uf.str.concat a d)) (= b d)) :pattern ((uf.str.concat a b) (uf.str.concat a d))))", SBool)})
+			c.assumes = append(c.assumes, Assume{declPos: len(c.decls), why: "string concatenation is left- and right-cancellative",
+				t: raw("(forall ((a Str) (b Str) (d Str)) (! (=> (= (uf.str.concat b a) (uf.str.concat d a)) (= b d)) :pattern ((uf.str.concat b a) (uf.str.concat d a))))", SBool)})
+		}
 	}
 	if len(args) == 0 {
 		return raw(name, ret)
